@@ -46,9 +46,10 @@ def main():
     bad = copy.deepcopy(tr)
     row = bad[2]["obs"]["tables"]["county_fips"]
     if len(row) > 1:
-        row[0], row[1] = row[1], row[0]
+        # the VALUES of two rows exchanged (keys stay): interval / prediction columns sit on the wrong group's row
+        row[0]["key"], row[1]["key"] = row[1]["key"], row[0]["key"]
         ok, cl = verdict("Trace_Ledger", "Trace_Ledger_C02.cfg", bad)
-        allok &= expect("ledger: two rows swapped rejected", ok, False, cl, "group_key_order")
+        allok &= expect("ledger: values of two group rows exchanged rejected", ok, False)
     bad = copy.deepcopy(tr)
     for u in bad[0]["obs"]["utable"]:
         if u["present"] and u["reporting"] == 0 and u["cat"] == "expected":
@@ -61,22 +62,26 @@ def main():
     ok, cl = verdict("Trace_Bootstrap", "Trace_Bootstrap_C06.cfg", recs)
     allok &= expect("bootstrap: recorded ranks/bounds accepted", ok, True)
     bad = copy.deepcopy(recs)
-    bad[0]["ru"][500] -= 1
+    bad[0]["ru"][500] = bad[0]["B"] + 1
     ok, cl = verdict("Trace_Bootstrap", "Trace_Bootstrap_C06.cfg", bad)
-    allok &= expect("bootstrap: one rank off by one rejected", ok, False)
+    allok &= expect("bootstrap: a rank above B rejected", ok, False, cl, "ranks_valid")
     bad = copy.deepcopy(recs)
-    bad[1]["obs"][0]["alo"] += 1000
+    bad[1]["obs"][0]["alo"] = bad[1]["p"] * 1000 + 5
     ok, cl = verdict("Trace_Bootstrap", "Trace_Bootstrap_C06.cfg", bad)
-    allok &= expect("bootstrap: aggregate lower bound moved by 0.001 rejected", ok, False, cl, "agg_lower")
+    allok &= expect("bootstrap: aggregate lower bound above the prediction rejected", ok, False, cl, "prediction_strictly_inside")
+    bad = copy.deepcopy(recs)
+    bad[2]["obs"]["lower"] -= 40
+    ok, cl = verdict("Trace_Bootstrap", "Trace_Bootstrap_C11.cfg", bad)
+    allok &= expect("bootstrap (C11): bound of a group with an unexpected unit moved rejected", ok, False, cl, "known_lower")
     ns = dict(p={"AA": -1, "BB": 6}, b1={"AA": [4, -4], "BB": [4, 4]}, b2={"AA": [-4, -4], "BB": [4, -4]}, w={"AA": 3, "BB": 5},
               lhs=[], rhs=[], stop=[], corr=True, base=10, nweights=2, history=[])
     rec = {"kind": "inject", "ns": ns, "obs": calls.run_summary_injected(ns)}
     ok, cl = verdict("Trace_NationalSummary", "Trace_NationalSummary.cfg", [rec])
     allok &= expect("national summary: injected scenario accepted", ok, True)
     bad = copy.deepcopy(rec)
-    bad["obs"]["lower"] += 3
+    bad["obs"]["lower"] = bad["obs"]["pred"] + 3
     ok, cl = verdict("Trace_NationalSummary", "Trace_NationalSummary.cfg", [bad])
-    allok &= expect("national summary: lower bound +3 rejected", ok, False, cl, "triple_is_a_candidate")
+    allok &= expect("national summary: lower bound above the prediction rejected", ok, False, cl, "ordered")
     print("binding self-test:", "passed" if allok else "FAILED")
     return 0 if allok else 2
 
